@@ -1,6 +1,10 @@
 import CssVerif.Lemmas.Codec
 import CssVerif.Lemmas.CodecInc
 import CssVerif.Lemmas.CodecEnc
+import CssVerif.Lemmas.CodecAgree
+import CssVerif.Lemmas.CodecStream
+import CssVerif.Lemmas.CodecAuto
+import CssVerif.Lemmas.CodecErr
 /-!
 # C07 — CSS codec: detection follows CSS 2.1 §4.4, early answers are never revised
 
@@ -178,6 +182,409 @@ theorem encoder_chunking (I : InnerEnc) (given : Option Name) (cs : List (List N
   have h2 := efinal_step I given _ _ _ h1
   simpa using h2
 
+
+/-! ## the concrete inner codecs (CPython's UTF-8 / UTF-8-SIG / UTF-16 / UTF-32 / latin-1 / ASCII under
+`errors="strict"`, `Model/CodecInner.lean`) -/
+
+/-- T7.6 chunking invariance of every inner incremental decoder, errors included: for EVERY chunking
+(cuts inside a multi-byte character, a surrogate pair or the BOM, empty chunks) feeding the chunks and then
+`decode(b"", True)` raises iff the incremental decoder raises on the whole data at once, and otherwise
+returns exactly that text. The decoder object is modelled with its state (`self.buffer`, BOM sniffing). -/
+theorem inner_decoder_chunking (c : CName) (cs : List (List Nat)) :
+    incDecode c cs = obs (incOut c cs.flatten true) :=
+  incDecode_eq c cs
+
+/-- … and that equals the *stateless* decoder `codecs.getdecoder(name)` one-shot `decode` uses, on all data
+where CPython's stateless and incremental decoders agree (`Agree`: everything for the byte-order-fixed and
+single-byte codecs and utf-8; for utf-8-sig all data but `EF` and `EF BB`; for utf-16/32 data that is empty,
+starts with a BOM, or is ill-formed). Full statement without the guard is FALSE — see the two findings below. -/
+theorem inner_decoder_chunking_stateless_partial (c : CName) (cs : List (List Nat)) (h : Agree c cs.flatten) :
+    incDecode c cs = statelessDecode c cs.flatten := by
+  rw [incDecode_eq, stateless_agrees c _ h]; rfl
+
+/-- the guard `Agree` is exact: on every data outside it CPython's stateless and incremental decoders differ
+(one raises where the other returns text), for every chunking -/
+theorem agree_is_necessary (c : CName) (cs : List (List Nat)) (h : ¬ Agree c cs.flatten) :
+    incDecode c cs ≠ statelessDecode c cs.flatten := by
+  rw [incDecode_eq]
+  exact fun e => stateless_disagrees c _ h e.symm
+
+/-- outside `Agree` (1): `utf-16` data without BOM — `codecs.getdecoder("utf-16")(b"a\0")` is `"a"` (native
+byte order), the incremental decoder raises "UTF-16 stream does not start with BOM" -/
+theorem finding_utf16_no_bom :
+    statelessDecode .u16 [0x61, 0] = some [0x61] ∧ incDecode .u16 [[0x61, 0]] = none ∧
+    statelessDecode .u32 [0x61, 0, 0, 0] = some [0x61] ∧ incDecode .u32 [[0x61, 0, 0, 0]] = none := by decide
+
+/-- outside `Agree` (2): `utf-8-sig` data that is a proper prefix of the BOM — the stateless decoder raises
+(truncated sequence), the incremental one keeps waiting and returns `""` even at the end of the data -/
+theorem finding_utf8sig_bom_prefix :
+    statelessDecode .u8sig [0xEF, 0xBB] = none ∧ incDecode .u8sig [[0xEF], [0xBB]] = some [] := by decide
+
+/-- T7.6 (encoder side): for every chunking of the text the inner incremental encoder writes exactly the
+bytes of the stateless encoder (the BOM of utf-8-sig / utf-16 / utf-32 once, by the first call), and one
+raises (`UnicodeEncodeError`: surrogate, or a character outside latin-1 / ASCII) iff the other does -/
+theorem inner_encoder_chunking (c : CName) (cs : List (List Nat)) :
+    incEncode c cs = statelessEncode c cs.flatten :=
+  incEncode_eq c cs
+
+/-- T7.1 (inner) round trip: what the encoder of a codec writes for a text it accepts, the decoder of the
+same codec — stateless, or incremental over ANY chunking of the bytes — reads back as exactly that text -/
+theorem inner_roundtrip (c : CName) (t bs : List Nat) (h : statelessEncode c t = some bs) :
+    statelessDecode c bs = some t ∧ ∀ cs : List (List Nat), cs.flatten = bs → incDecode c cs = some t := by
+  unfold statelessEncode at h
+  cases he : (encScan c.kind t).2 with
+  | false => simp [he] at h
+  | true =>
+    simp only [he, if_true, Option.some.injEq] at h
+    subst h
+    refine ⟨?_, ?_⟩
+    · unfold statelessDecode; rw [stateless_encode c t he]; rfl
+    · intro cs hcs
+      rw [incDecode_eq, hcs, incOut_encode c t he]; rfl
+
+/-- T7.5 for the concrete codecs: `decoder_chunking` needs no hypothesis about the inner codec any more —
+CPython's decoders (as modelled) satisfy the `Inner` laws (`cpyInner`) -/
+theorem decoder_chunking_cpython (given : Option Name) (force : Bool) (cs : List (List Nat)) :
+    runAll cpyInner given force cs = oneShot cpyInner given force cs.flatten :=
+  decoder_chunking cpyInner given force cs
+
+theorem encoder_chunking_cpython (given : Option Name) (cs : List (List Nat)) :
+    erunAll cpyInnerEnc given cs = encodeOneShot cpyInnerEnc given cs.flatten :=
+  encoder_chunking cpyInnerEnc given cs
+
+/-- T7.1 round trip of the CSS codec over the concrete inner codecs: for every encoding name `g` the model
+knows and every text whose rewritten form the codec can encode, `decode(encode(t, g), g)` is `t` with the name
+in a leading complete `@charset` rule rewritten to `g` (utf-8 for utf-8-sig) — `fixFinal t g` — and nothing else
+changed. -/
+theorem roundtrip_given (g : Name) (c : CName) (t : List Nat) (hl : lookupName g = some c)
+    (henc : (encScan c.kind (fixFinal t g)).2 = true) :
+    oneShot cpyInner (some g) true (encodeOneShot cpyInnerEnc (some g) t) = fixFinal t g := by
+  have e1 : encodeOneShot cpyInnerEnc (some g) t = c.bom ++ (encScan c.kind (fixFinal t g)).1 := by
+    simp [encodeOneShot, cpyInnerEnc, cpyEncOut, hl, encOut]
+  have e2 : finalEnc (some g) true (c.bom ++ (encScan c.kind (fixFinal t g)).1) = g := rfl
+  rw [e1]
+  unfold oneShot
+  rw [e2]
+  have e3 : cpyInner.out g (c.bom ++ (encScan c.kind (fixFinal t g)).1) true = fixFinal t g := by
+    simp only [cpyInner, cpyOut, hl, incOut_encode c _ henc]
+  rw [e3]
+  exact fixFinal_twice t g (lookup_written_noquote g c hl)
+
+/-- … and the same through the incremental classes, for EVERY chunking of the text on the encoder side and
+EVERY chunking of the bytes on the decoder side -/
+theorem roundtrip_given_chunked (g : Name) (c : CName) (ts bs : List (List Nat)) (hl : lookupName g = some c)
+    (henc : (encScan c.kind (fixFinal ts.flatten g)).2 = true)
+    (hb : bs.flatten = erunAll cpyInnerEnc (some g) ts) :
+    runAll cpyInner (some g) true bs = fixFinal ts.flatten g := by
+  rw [decoder_chunking_cpython, hb, encoder_chunking_cpython]
+  exact roundtrip_given g c ts.flatten hl henc
+
+
+
+
+/-- T7.5 with the exception of the inner decoder (`errors="strict"`): for EVERY chunking, `encoding`, `force` —
+some call of `IncrementalDecoder.decode` raises iff one-shot `decode` raises (ill-formed or truncated data for
+the encoding that is given or detected), and otherwise the concatenated outputs are the one-shot result -/
+theorem decoder_chunking_errors (given : Option Name) (force : Bool) (cs : List (List Nat)) :
+    runAllE cpyInner given force cs = oneShotE cpyInner given force cs.flatten :=
+  runAllE_eq cpyInner given force cs
+
+/-- … where one-shot `decode` is the real one (stateless `codecs.getdecoder`, then `_fixencoding`) on all data
+on which CPython's stateless and incremental decoders agree (`Agree`; outside it see the two findings) -/
+theorem oneShotE_is_stateless_partial (given : Option Name) (force : Bool) (d : List Nat) (c : CName)
+    (hl : lookupName (finalEnc given force d) = some c) (ha : Agree c d) :
+    oneShotE cpyInner given force d =
+      (statelessDecode c d).map (fun txt => fixFinal txt (finalEnc given force d)) := by
+  rw [stateless_agrees c d ha]
+  unfold oneShotE errAt oneShot obs
+  simp only [hl, cpyInner, cpyOut]
+  cases (incOut c d true).err <;> simp
+
+/-- the abstraction behind T7.5 is exact for CPython's decoder objects: after ANY history of chunks that did not
+raise, the next call `decode(x, final)` of the inner decoder object (state = BOM sniffing mode + pending bytes)
+raises iff the data so far is ill-formed, and otherwise returns exactly what the CSS decoder machine of the
+model takes as the inner decoder's answer (`feedInner cpyInner`: text of everything so far minus the text
+already returned) -/
+theorem inner_object_refines_feed (c : CName) (E : Name) (hl : lookupName E = some c) (xs : List (List Nat))
+    (x : List Nat) (f : Bool) (s : ISt) (t0 : List Nat) (h : irun c c.init xs = some (s, t0)) :
+    (istep c s x f).map (·.2) =
+      if errAt E (xs.flatten ++ x) f then none else some (feedInner cpyInner E xs.flatten x f) :=
+  istep_is_feedInner c E hl xs x f s t0 h
+
+/-- T7.5 (encoder side) with the exception: some call of `IncrementalEncoder.encode` raises
+(`UnicodeEncodeError`: a surrogate, or a character the given / declared encoding cannot represent) iff one-shot
+`encode` raises, for every chunking of the text; otherwise the same bytes -/
+theorem encoder_chunking_errors (given : Option Name) (cs : List (List Nat)) :
+    erunAllE cpyInnerEnc given cs = encodeOneShotE cpyInnerEnc given cs.flatten :=
+  erunAllE_eq cpyInnerEnc given cs
+
+/-! ## `reset()` -/
+
+/-- "reset the decoder / encoder to the initial state" (the `codecs` contract), `_partial`: holds when `encoding`
+was given to the constructor (and, for the decoder, `force` is true — the default): whatever was fed before, the
+reset machine is the fresh machine. The full statement (every `encoding` / `force`) is FALSE for the code: `reset`
+leaves the encoding detected from the previous input in `self.encoding` — `finding_reset_keeps_encoding`. -/
+theorem reset_is_fresh_partial (I : Inner) (J : InnerEnc) (g : Name) (cs : List (List Nat)) :
+    (runChunks I (.waiting (some g) true []) cs).1.reset true = .waiting (some g) true [] ∧
+    (erunChunks J (.waiting (some g) []) cs).1.reset = .waiting (some g) [] :=
+  ⟨reset_initial_forced I g cs, ereset_initial_given J g cs⟩
+
+/-- the negation at a witness: a decoder created without `encoding` that has decoded a UTF-16 document (BOM) and
+is then reset decodes the UTF-8 bytes `a{}` as UTF-16 and raises, where a fresh decoder returns `a{}`; an encoder
+that has encoded `@charset "ascii";` and is reset refuses `é`, which a fresh encoder writes as UTF-8 -/
+theorem finding_reset_keeps_encoding :
+    (stepE cpyInner ((step cpyInner (.waiting none true []) [0xFF, 0xFE, 0x61, 0] true).1.reset true)
+        [0x61, 0x7B, 0x7D] true).map (·.2) = none ∧
+    (stepE cpyInner (.waiting none true []) [0x61, 0x7B, 0x7D] true).map (·.2) = some [0x61, 0x7B, 0x7D] ∧
+    (estepE cpyInnerEnc ((estep cpyInnerEnc (.waiting none []) (prefix10 ++ cps' "ascii" ++ [0x22, 0x3B]) true).1.reset)
+        [0xE9] true).map (·.2) = none ∧
+    (estepE cpyInnerEnc (.waiting none []) [0xE9] true).map (·.2) = some [0xC3, 0xA9] := by decide
+
+/-! ## round trip with auto-detection (no `encoding` argument on the decoding side) -/
+
+/-- T7.1 (auto-detected, BOM): a text encoded with a BOM-writing encoding (`utf-8-sig`, `utf-16`, `utf-32`, any
+spelling the model knows) and decoded WITHOUT an `encoding` argument comes back with the name of its `@charset`
+rule rewritten to the detected encoding (`utf-8` / `utf-16` / `utf-32`). `_partial`: for `utf-16` the text
+must not start with U+0000 — `FF FE 00 00` is the UTF-32 BOM (negation: `utf16_nul_is_utf32`). -/
+theorem roundtrip_auto_bom_partial (g : Name) (c : CName) (t : List Nat) (hl : lookupName g = some c)
+    (hc : c = .u8sig ∨ c = .u16 ∨ c = .u32)
+    (henc : (encScan c.kind (fixFinal t g)).2 = true)
+    (hnul : c = .u16 → (fixFinal t g).head? ≠ some 0) :
+    oneShot cpyInner none true (encodeOneShot cpyInnerEnc (some g) t) = fixFinal t (detected c) := by
+  have e1 : encodeOneShot cpyInnerEnc (some g) t = c.bom ++ (encScan c.kind (fixFinal t g)).1 := by
+    simp [encodeOneShot, cpyInnerEnc, cpyEncOut, hl, encOut]
+  have hdet : detect (c.bom ++ (encScan c.kind (fixFinal t g)).1) true =
+      some (match c with | .u8sig => .utf8sig | .u16 => .utf16 | .u32 => .utf32 | .plain _ => .utf8, true) := by
+    rcases hc with rfl | rfl | rfl
+    · exact bom_utf8 _ true
+    · have henc' : (encScan .u16le (fixFinal t g)).2 = true := henc
+      have hh := enc16_head (fixFinal t g) (encScan .u16le (fixFinal t g)).1 (by rw [← henc']) (hnul rfl)
+      rcases hh with hh | ⟨a, b, rest, hh, hab⟩
+      · show detect (bom16le ++ (encScan .u16le (fixFinal t g)).1) true = _
+        rw [hh]; exact bom_utf16_le_short.1
+      · show detect (bom16le ++ (encScan .u16le (fixFinal t g)).1) true = _
+        rw [hh]; exact bom_utf16_le a b rest true hab
+    · exact bom_utf32_le _ true
+  have hfe : finalEnc none true (c.bom ++ (encScan c.kind (fixFinal t g)).1) = detected c := by
+    have hdf : detectFinal (c.bom ++ (encScan c.kind (fixFinal t g)).1) = _ :=
+      Option.some.inj ((detect_true _).symm.trans hdet)
+    unfold finalEnc pick
+    rw [hdf]
+    rcases hc with rfl | rfl | rfl <;> rfl
+  have hl2 : lookupName (detected c) = some c := by
+    rcases hc with rfl | rfl | rfl <;> decide
+  rw [e1]
+  unfold oneShot
+  rw [hfe]
+  have e3 : cpyInner.out (detected c) (c.bom ++ (encScan c.kind (fixFinal t g)).1) true = fixFinal t g := by
+    simp only [cpyInner, cpyOut, hl2, incOut_encode c _ henc]
+  rw [e3]
+  exact fixFinal_fixFinal t g (detected c) (lookup_written_noquote g c hl)
+
+/-- where the guard bites: `"\0"` encoded as utf-16 is `FF FE 00 00`, which the detector must read as the UTF-32
+BOM (CSS 2.1 §4.4) — decoded without `encoding` it comes back empty -/
+theorem utf16_nul_is_utf32 :
+    encodeOneShot cpyInnerEnc (some (cps' "utf-16")) [0] = [0xFF, 0xFE, 0, 0] ∧
+    oneShot cpyInner none true [0xFF, 0xFE, 0, 0] = [] := by decide
+
+/-- T7.1 (auto-detected, `@charset`): a text that starts with a complete `@charset "…"` rule, encoded in an
+ASCII-compatible encoding `g` (utf-8, latin-1, ASCII, any known spelling) and decoded WITHOUT an `encoding`
+argument is decoded with `g` — the rewritten rule names it — and comes back as the text with the name `g` -/
+theorem roundtrip_auto_charset (g : Name) (k : Kind) (name0 rest : List Nat)
+    (hl : lookupName g = some (.plain k)) (hk : k = .u8 ∨ k = .l1 ∨ k = .ascii)
+    (hn : ∀ ch ∈ name0, ch ≠ 0x22)
+    (henc : (encScan k (fixFinal (prefix10 ++ name0 ++ 0x22 :: rest) g)).2 = true) :
+    oneShot cpyInner none true (encodeOneShot cpyInnerEnc (some g) (prefix10 ++ name0 ++ 0x22 :: rest)) =
+      fixFinal (prefix10 ++ name0 ++ 0x22 :: rest) g := by
+  have hw := not_sig_of_plain g k hl
+  have hq : ∀ ch ∈ g, ch ≠ 0x22 := by
+    have := lookup_written_noquote g _ hl; rwa [hw] at this
+  have hx : fixFinal (prefix10 ++ name0 ++ 0x22 :: rest) g = prefix10 ++ g ++ 0x22 :: rest := by
+    have l1 : (prefix10 ++ name0 ++ 0x22 :: rest).length > 10 := by simp [prefix10]; omega
+    have l2 : prefix10.isPrefixOf (prefix10 ++ name0 ++ 0x22 :: rest) = true := by
+      rw [List.isPrefixOf_iff_prefix, List.append_assoc]; exact List.prefix_append _ _
+    have l3 : (prefix10 ++ name0 ++ 0x22 :: rest).drop 10 = name0 ++ 0x22 :: rest := by simp [prefix10]
+    have hww : (if normName g = utf8sigName then utf8Name else g) = g := hw
+    simp only [fixFinal, l1, l2, if_true, l3, findQuote_noquote _ hn, hww]
+    simp
+  rw [hx] at henc ⊢
+  -- the ASCII head of the text is its own encoding
+  have hsplit : prefix10 ++ g ++ 0x22 :: rest = (prefix10 ++ g ++ [0x22]) ++ rest := by simp
+  have hasc : ∀ ch ∈ prefix10 ++ g ++ [0x22], ch < 0x80 := by
+    intro ch hch
+    simp only [List.mem_append, List.mem_singleton] at hch
+    rcases hch with (h | h) | h
+    · revert ch; decide
+    · exact lookup_ascii g _ hl ch h
+    · omega
+  have hA := encScan_ascii k hk _ hasc
+  have hE : (encScan k (prefix10 ++ g ++ 0x22 :: rest)).1 = prefix10 ++ g ++ 0x22 :: (encScan k rest).1 := by
+    rw [hsplit, encScan_append, hA]; simp
+  have e1 : encodeOneShot cpyInnerEnc (some g) (prefix10 ++ name0 ++ 0x22 :: rest) =
+      prefix10 ++ g ++ 0x22 :: (encScan k rest).1 := by
+    simp only [encodeOneShot, cpyInnerEnc, cpyEncOut, hl, encOut, hx, CName.bom, CName.kind, hE]
+    simp [prefix10]
+  rw [e1]
+  have hdet := charset_rule g (encScan k rest).1 true hq
+  have hfe : finalEnc none true (prefix10 ++ g ++ 0x22 :: (encScan k rest).1) = g := by
+    have hdf : detectFinal (prefix10 ++ g ++ 0x22 :: (encScan k rest).1) = _ :=
+      Option.some.inj ((detect_true _).symm.trans hdet)
+    unfold finalEnc pick
+    rw [hdf]; rfl
+  unfold oneShot
+  rw [hfe]
+  have e3 : cpyInner.out g (prefix10 ++ g ++ 0x22 :: (encScan k rest).1) true = prefix10 ++ g ++ 0x22 :: rest := by
+    have := incOut_encode (.plain k) (prefix10 ++ g ++ 0x22 :: rest) henc
+    simp only [CName.bom, CName.kind, List.nil_append, hE] at this
+    simp only [cpyInner, cpyOut, hl, this]
+  rw [e3, ← hx]
+  exact fixFinal_twice _ g (lookup_written_noquote g _ hl)
+
+/-! CSS 2.1 §4.4, the BOM-less wide encodings: `@charset "` read as UTF-16 / UTF-32 code units — for every
+continuation and both values of `final`; the answer is implicit (`explicit = False`) -/
+theorem pattern_utf32_le (t : List Nat) (f : Bool) : detect (0x40 :: 0 :: 0 :: 0 :: t) f = some (.utf32le, false) := by
+  have h : detect [0x40, 0, 0, 0] false = some (.utf32le, false) := by decide
+  exact detect_never_revised [0x40, 0, 0, 0] t f _ h
+theorem pattern_utf32_be (t : List Nat) (f : Bool) : detect (0 :: 0 :: 0 :: 0x40 :: t) f = some (.utf32be, false) := by
+  have h : detect [0, 0, 0, 0x40] false = some (.utf32be, false) := by decide
+  exact detect_never_revised [0, 0, 0, 0x40] t f _ h
+theorem pattern_utf16_le (t : List Nat) (f : Bool) : detect (0x40 :: 0 :: 0x63 :: 0 :: t) f = some (.utf16le, false) := by
+  have h : detect [0x40, 0, 0x63, 0] false = some (.utf16le, false) := by decide
+  exact detect_never_revised [0x40, 0, 0x63, 0] t f _ h
+theorem pattern_utf16_be (t : List Nat) (f : Bool) : detect (0 :: 0x40 :: t) f = some (.utf16be, false) := by
+  have h : detect [0, 0x40] false = some (.utf16be, false) := by decide
+  exact detect_never_revised [0, 0x40] t f _ h
+
+/-- T7.1 (auto-detected, BOM-less UTF-16 / UTF-32): a text that starts with `@c` (in particular with an `@charset`
+rule), encoded as utf-16-le / -be / utf-32-le / -be (any known spelling `g`, no BOM) and decoded WITHOUT an
+`encoding` argument, is recognised by its first code units, decoded with that encoding, and comes back with
+the name in its `@charset` rule rewritten to the detector's name for it -/
+theorem roundtrip_auto_pattern (g : Name) (k : Kind) (tl : List Nat)
+    (hl : lookupName g = some (.plain k)) (hk : k = .u16le ∨ k = .u16be ∨ k = .u32le ∨ k = .u32be)
+    (henc : (encScan k (fixFinal (0x40 :: 0x63 :: tl) g)).2 = true) :
+    oneShot cpyInner none true (encodeOneShot cpyInnerEnc (some g) (0x40 :: 0x63 :: tl)) =
+      fixFinal (0x40 :: 0x63 :: tl) (patName k) := by
+  obtain ⟨tl', hx⟩ := fixFinal_head tl g
+  have e1 : encodeOneShot cpyInnerEnc (some g) (0x40 :: 0x63 :: tl) = patHead k ++ (encScan k tl').1 := by
+    simp only [encodeOneShot, cpyInnerEnc, cpyEncOut, hl, encOut, hx, CName.bom, CName.kind, encScan_at_c k hk]
+    simp
+  have hdet : detect (patHead k ++ (encScan k tl').1) true =
+      some (match k with | .u16le => .utf16le | .u16be => .utf16be | .u32le => .utf32le | _ => .utf32be, false) := by
+    rcases hk with rfl | rfl | rfl | rfl
+    · exact pattern_utf16_le _ true
+    · exact pattern_utf16_be _ true
+    · exact pattern_utf32_le _ true
+    · exact pattern_utf32_be _ true
+  have hfe : finalEnc none true (patHead k ++ (encScan k tl').1) = patName k := by
+    have hdf : detectFinal (patHead k ++ (encScan k tl').1) = _ :=
+      Option.some.inj ((detect_true _).symm.trans hdet)
+    unfold finalEnc pick
+    rw [hdf]
+    rcases hk with rfl | rfl | rfl | rfl <;> rfl
+  have hl2 : lookupName (patName k) = some (.plain k) := by
+    rcases hk with rfl | rfl | rfl | rfl <;> decide
+  rw [e1]
+  unfold oneShot
+  rw [hfe]
+  have e3 : cpyInner.out (patName k) (patHead k ++ (encScan k tl').1) true = fixFinal (0x40 :: 0x63 :: tl) g := by
+    have := incOut_encode (.plain k) (fixFinal (0x40 :: 0x63 :: tl) g) henc
+    simp only [CName.bom, CName.kind, List.nil_append, hx, encScan_at_c k hk] at this
+    simp only [cpyInner, cpyOut, hl2, this, hx]
+  rw [e3]
+  exact fixFinal_fixFinal _ g (patName k) (lookup_written_noquote g _ hl)
+
+/-! ## the stream classes (`StreamReader`, `StreamWriter`; `Model/CodecStream.lean`) -/
+
+/-- T7.7 the stream reader, for EVERY way the stream hands out the bytes and every `encoding` / `force`: what
+`read()` returns is a prefix of one-shot `decode` of the whole data (nothing wrong is ever handed out) … -/
+theorem stream_reader_prefix (I : Inner) (given : Option Name) (force : Bool) (cs : List (List Nat)) :
+    ∃ ext, oneShot I given force cs.flatten = readAll I given force cs ++ ext :=
+  readAll_prefix I given force cs
+
+/-- … and exactly the one-shot result as soon as the whole data lets the reader start (`¬ RUnd`: the encoding
+is detected and the text does not end inside a possible `@charset` rule — the codecs stream API has no
+end-of-data signal, so such data stays buffered) and the inner decoder has nothing pending at the end.
+`_partial`: the statement without the two hypotheses is false for the code (no `final` in `StreamReader.decode`). -/
+theorem stream_reader_complete_partial (I : Inner) (given : Option Name) (force : Bool) (cs : List (List Nat))
+    (hstart : ¬ RUnd I given force cs.flatten)
+    (hpend : I.out (finalEnc given force cs.flatten) cs.flatten true =
+             I.out (finalEnc given force cs.flatten) cs.flatten false) :
+    readAll I given force cs = oneShot I given force cs.flatten :=
+  readAll_complete I given force cs hstart hpend
+
+/-- T7.7 with the exception: `read()` of the CSS stream reader raises iff the inner decoder of the encoding the
+reader settles on raises on the whole data read, taken as non-final data (no encoding settled: never) — for every
+way the stream hands out the bytes; otherwise it returns `readAll`. Data that only ENDS inside a character
+never raises (no `final` in the stream API), where one-shot `decode` does. -/
+theorem stream_reader_errors (I : Inner) (given : Option Name) (force : Bool) (cs : List (List Nat)) :
+    readAllE I given force cs = if rerr given force cs.flatten then none else some (readAll I given force cs) :=
+  readAllE_eq I given force cs
+
+/-- T7.7 (writer): for every chunking of the text what the stream writer has written is a prefix of one-shot
+`encode` … -/
+theorem stream_writer_prefix (I : InnerEnc) (given : Option Name) (cs : List (List Nat)) :
+    ∃ ext, encodeOneShot I given cs.flatten = writeAll I given cs ++ ext :=
+  writeAll_prefix I given cs
+
+/-- … and exactly the one-shot bytes as soon as the whole text lets the writer start (`¬ WUnd`) and the inner
+encoder adds nothing at the end of the data -/
+theorem stream_writer_complete_partial (I : InnerEnc) (given : Option Name) (cs : List (List Nat))
+    (hstart : ¬ WUnd given cs.flatten)
+    (hfin : I.out (finalE given cs.flatten) (finalT given cs.flatten) true =
+            I.out (finalE given cs.flatten) (finalT given cs.flatten) false) :
+    writeAll I given cs = encodeOneShot I given cs.flatten :=
+  writeAll_complete I given cs hstart hfin
+
+/-- T7.7 (writer) with the exception: some `write(chunk)` raises (`UnicodeEncodeError`) iff the writer has started
+on the whole text (`¬ WUnd`) and the inner encoder refuses the text it is handed (`werr`); otherwise exactly
+`writeAll` has been written — for every chunking -/
+theorem stream_writer_errors (I : InnerEnc) (given : Option Name) (cs : List (List Nat)) :
+    (writeAllE I given cs = none ↔ (cs ≠ [] ∧ werr given cs.flatten)) ∧
+    (∀ out, writeAllE I given cs = some out → out = writeAll I given cs) :=
+  writeAllE_eq I given cs
+
+/-- T7.1 through the stream classes over CPython's codecs: a text written chunk by chunk with
+`getwriter("css")(…, encoding=g)` and read back through `getreader("css")(…, encoding=g)` from a stream that hands
+out the bytes in ANY pieces is the text with the `@charset` name rewritten — for every known `g`, every
+encodable text that does not end inside a possible `@charset` rule, every chunking on both sides -/
+theorem stream_roundtrip (g : Name) (c : CName) (ts bs : List (List Nat)) (hl : lookupName g = some c)
+    (henc : (encScan c.kind (fixFinal ts.flatten g)).2 = true)
+    (hstart : ¬ WUnd (some g) ts.flatten)
+    (hb : bs.flatten = writeAll cpyInnerEnc (some g) ts) :
+    readAll cpyInner (some g) true bs = fixFinal ts.flatten g := by
+  have hq := lookup_written_noquote g c hl
+  -- the text is accepted by the rewriter, so is its rewritten form, and that is not empty
+  obtain ⟨r, hr⟩ : ∃ r, fixEncoding ts.flatten g false = some r := by
+    cases h : fixEncoding ts.flatten g false with
+    | none => exact absurd h hstart
+    | some r => exact ⟨r, rfl⟩
+  have hrf : fixFinal ts.flatten g = r := by
+    have := fixFinal_of_early ts.flatten [] g r hr
+    simpa using this
+  have hne : fixFinal ts.flatten g ≠ [] := by rw [hrf]; exact fix_some_ne_nil _ _ _ hr
+  have hr2 : fixEncoding (fixFinal ts.flatten g) g false = some (fixFinal ts.flatten g) := by
+    rw [hrf]; exact fixEncoding_twice _ g r hq hr
+  -- writer = one-shot encode
+  have hw : writeAll cpyInnerEnc (some g) ts = c.bom ++ (encScan c.kind (fixFinal ts.flatten g)).1 := by
+    rw [stream_writer_complete_partial cpyInnerEnc (some g) ts hstart]
+    · simp [encodeOneShot, cpyInnerEnc, cpyEncOut, hl, encOut]
+    · simp [finalE, finalT, cpyInnerEnc, cpyEncOut, hl, encOut, hne]
+  have hout : ∀ f, cpyInner.out g bs.flatten f = fixFinal ts.flatten g := by
+    intro f
+    simp only [cpyInner, cpyOut, hl, hb, hw, incOut_encode_f c _ f henc]
+  have hfe : finalEnc (some g) true bs.flatten = g := rfl
+  rw [stream_reader_complete_partial cpyInner (some g) true bs]
+  · rw [hb, hw]
+    have := roundtrip_given g c ts.flatten hl henc
+    have e1 : encodeOneShot cpyInnerEnc (some g) ts.flatten = c.bom ++ (encScan c.kind (fixFinal ts.flatten g)).1 := by
+      simp [encodeOneShot, cpyInnerEnc, cpyEncOut, hl, encOut]
+    rw [e1] at this
+    exact this
+  · unfold RUnd
+    simp only [readerEnc, hout false, hr2]
+    simp
+  · rw [hfe, hout true, hout false]
+
 /-! non-vacuity: the hypotheses above are met by ordinary inputs -/
 /-- an inner codec satisfying the `Inner` laws exists (identity, e.g. latin-1 on bytes) -/
 def idInner : Inner := ⟨fun _ b _ => b, fun _ a b _ => ⟨b, rfl⟩, fun _ => rfl⟩
@@ -190,5 +597,63 @@ example : detect [0x40, 0x63] false = none := by decide
 example : detect [0x61] false = some (.utf8, false) := by decide
 example : detect (prefix10 ++ [0x78] ++ 0x22 :: [0x3B]) false = some (.named [0x78], true) :=
   charset_rule [0x78] [0x3B] false (by decide)
+/-- `é€😀` in UTF-8, cut inside each character -/
+example : incDecode (.plain .u8) [[0xC3], [0xA9, 0xE2, 0x82], [0xAC, 0xF0, 0x9F], [0x98, 0x80]] =
+    some [0xE9, 0x20AC, 0x1F600] := by decide
+example : Agree .u16 ([[0xFF], [0xFE, 0x3D, 0xD8], [0x00, 0xDE]] : List (List Nat)).flatten := by
+  right; left; decide
+example : incDecode .u16 [[0xFF], [0xFE, 0x3D, 0xD8], [0x00, 0xDE]] = some [0x1F600] := by decide
+example : statelessEncode .u16 [0x1F600] = some [0xFF, 0xFE, 0x3D, 0xD8, 0x00, 0xDE] := by decide
+example : incEncode .u8sig [[0x61], [], [0xE9]] = some [0xEF, 0xBB, 0xBF, 0x61, 0xC3, 0xA9] := by decide
+example : incEncode (.plain .l1) [[0x61], [0x100]] = none := by decide
+/-- `@charset "x";é` encoded and decoded as utf-8: the name becomes utf-8 -/
+example : lookupName (cps' "utf-8") = some (.plain .u8) := by decide
+example : (encScan (CName.plain .u8).kind (fixFinal (prefix10 ++ [0x78, 0x22, 0x3B, 0xE9]) (cps' "utf-8"))).2 = true := by
+  decide
+example : oneShot cpyInner (some (cps' "utf-8")) true
+    (encodeOneShot cpyInnerEnc (some (cps' "utf-8")) (prefix10 ++ [0x78, 0x22, 0x3B, 0xE9])) =
+    prefix10 ++ cps' "utf-8" ++ [0x22, 0x3B, 0xE9] := by decide
+/-- stream classes: `a{}` in utf-16 written in two pieces, read back byte pairs at a time -/
+example : ¬ WUnd (some (cps' "utf-16")) ([[0x61], [0x7B, 0x7D]] : List (List Nat)).flatten := by decide
+example : writeAll cpyInnerEnc (some (cps' "utf-16")) [[0x61], [0x7B, 0x7D]] = [0xFF, 0xFE, 0x61, 0, 0x7B, 0, 0x7D, 0] := by
+  decide
+example : readAll cpyInner none true [[0xFF], [0xFE, 0x61], [0, 0x7B, 0], [0x7D, 0]] = [0x61, 0x7B, 0x7D] := by decide
+example : ¬ RUnd cpyInner none true ([[0xFF], [0xFE, 0x61], [0, 0x7B, 0], [0x7D, 0]] : List (List Nat)).flatten := by
+  decide
+/-- … and the data that stays buffered: an open `@charset` rule -/
+example : readAll cpyInner none true [[0x40, 0x63, 0x68]] = [] ∧ RUnd cpyInner none true [0x40, 0x63, 0x68] := by decide
+/-- auto-detection: `é` as utf-16 with BOM, and `@charset "x";é` as latin-1 -/
+example : lookupName (cps' "UTF_16") = some .u16 ∧
+    (encScan CName.u16.kind (fixFinal [0xE9] (cps' "UTF_16"))).2 = true ∧
+    (fixFinal [0xE9] (cps' "UTF_16")).head? ≠ some 0 := by decide
+example : oneShot cpyInner none true (encodeOneShot cpyInnerEnc (some (cps' "UTF_16")) [0xE9]) = [0xE9] := by decide
+example : lookupName (cps' "latin-1") = some (.plain .l1) ∧
+    (encScan .l1 (fixFinal (prefix10 ++ [0x78] ++ 0x22 :: [0x3B, 0xE9]) (cps' "latin-1"))).2 = true := by decide
+example : oneShot cpyInner none true (encodeOneShot cpyInnerEnc (some (cps' "latin-1")) (prefix10 ++ [0x78] ++ 0x22 :: [0x3B, 0xE9])) =
+    prefix10 ++ cps' "latin-1" ++ [0x22, 0x3B, 0xE9] := by decide
+/-- errors: truncated UTF-8 raises in both; the incremental decoder at the final call -/
+example : runAllE cpyInner none true [[0x61], [0xC3]] = none ∧ oneShotE cpyInner none true [0x61, 0xC3] = none := by
+  decide
+example : runAllE cpyInner none true [[0x61, 0xC3], [0xA9]] = some [0x61, 0xE9] := by decide
+example : lookupName (finalEnc none true [0x61, 0xC3, 0xA9]) = some (.plain .u8) ∧ Agree (.plain .u8) [0x61, 0xC3, 0xA9] := by
+  constructor
+  · decide
+  · trivial
+example : erunAllE cpyInnerEnc (some (cps' "ascii")) [[0x61], [0xE9]] = none ∧
+    encodeOneShotE cpyInnerEnc (some (cps' "ascii")) [0x61, 0xE9] = none := by decide
+example : erunAllE cpyInnerEnc (some (cps' "latin-1")) [[0x61], [0xE9]] = some [0x61, 0xE9] := by decide
+example : irun (.plain .u8) (CName.init (.plain .u8)) [[0x61, 0xE2], [0x82]] = some (⟨some .u8, [0xE2, 0x82]⟩, [0x61]) := by
+  decide
+/-- BOM-less UTF-16-BE with an `@charset` rule, decoded without `encoding` -/
+example : lookupName (cps' "UTF-16BE") = some (.plain .u16be) ∧
+    (encScan .u16be (fixFinal (0x40 :: 0x63 :: ((prefix10.drop 2) ++ [0x78, 0x22, 0x3B, 0xE9])) (cps' "UTF-16BE"))).2 = true :=
+  ⟨by decide, by decide⟩
+example : oneShot cpyInner none true (encodeOneShot cpyInnerEnc (some (cps' "UTF-16BE")) (prefix10 ++ [0x78, 0x22, 0x3B, 0xE9])) =
+    prefix10 ++ cps' "utf-16-be" ++ [0x22, 0x3B, 0xE9] := by decide
+example : ¬ Agree .u16 ([[0x61], [0]] : List (List Nat)).flatten := by decide
+example : readAllE cpyInner none true [[0x61], [0xFF]] = none ∧ readAllE cpyInner none true [[0x61], [0xC3]] = some [0x61] := by
+  decide
+example : writeAllE cpyInnerEnc (some (cps' "ascii")) [[0x61], [0xE9]] = none ∧
+    writeAllE cpyInnerEnc (some (cps' "latin-1")) [[0x61], [0xE9]] = some [0x61, 0xE9] := by decide
 
 end CssVerif.C07
